@@ -605,7 +605,29 @@ def list_getitem(lst, idx):
             return []
         i, j = _boundary_index(c, lst, lo), _boundary_index(c, lst, hi)
         if i is None or j is None:
-            raise Unsupported("slice bound of a list with segments does not provably fall on an item boundary")
+            # a bound a small constant away from an end: peel that many elements
+            work = list(lst)
+            for k in (1, 2, 3):
+                if i is None and c.valid(lo == total - k)[0]:
+                    for n_ in range(k):
+                        tmp = work[:len(work) - n_]
+                        split_tail(tmp)
+                        work[:len(work) - n_] = tmp
+                if j is None and c.valid(hi == total - k)[0]:
+                    for n_ in range(k):
+                        tmp = work[:len(work) - n_]
+                        split_tail(tmp)
+                        work[:len(work) - n_] = tmp
+                if i is None and c.valid(lo == k)[0] or (j is None and c.valid(hi == k)[0]):
+                    for n_ in range(k):
+                        tmp = work[n_:]
+                        split_head(tmp)
+                        work[n_:] = tmp
+            total2 = zint(sym_len(work))
+            i, j = _boundary_index(c, work, lo), _boundary_index(c, work, hi)
+            if i is None or j is None:
+                raise Unsupported("slice bound of a list with segments does not provably fall on an item boundary")
+            return list(work[i:j])
         return list(lst[i:j])
     if isinstance(idx, slice):
         if not has_seg(lst):
